@@ -431,12 +431,16 @@ def main(argv):
     known = [k for k in load_known() if k.get("property") == pid and k.get("status") == "known"]
     known_sigs = {k.get("signature") for k in known}
     printed = set()
+    ofails = []
     if summary is not None:
         for kh in summary.get("known_hits") or []:
-            if kh["id"] in {k["id"] for k in known} and kh["id"] not in printed:
-                print("KNOWN-FINDING: property=%s %s: %s" % (pid, kh["id"], kh["what"]))
-                printed.add(kh["id"])
-    ofails = []
+            if kh["id"] in {k["id"] for k in known}:
+                if kh["id"] not in printed:
+                    print("KNOWN-FINDING: property=%s %s: %s" % (pid, kh["id"], kh["what"]))
+                    printed.add(kh["id"])
+            else:
+                ofails.append({"what": "a defect that known_findings.json does not list for this property reproduces: " + kh["id"], "input": kh["id"], "expect": "property holds", "got": kh["what"]})
+        cov["known_findings_reproduced"] = sorted(printed)
     if summary is not None:
         for of in summary.get("oracle_failures") or []:
             if of.get("sig") and of.get("sig") in known_sigs:
